@@ -32,7 +32,7 @@ func VerifBridge() {
 		dir := vIntR("dir", i, 0, 1)
 		switch vIntR("op", i, 0, 5) {
 		case 0: // a write
-			n := vIntR("len", i, 1, 3)
+			n := vIntR("len", i, 0, 3) // empty datagrams included
 			m := vBytes("msg", i, n)
 			keep := make([]byte, n)
 			copy(keep, m)
@@ -51,7 +51,7 @@ func VerifBridge() {
 					}
 					stack[dir].n = 0
 				}
-			case filterOn[dir] && keep[0] >= 128:
+			case filterOn[dir] && n > 0 && keep[0] >= 128:
 				// filtered out
 			default:
 				ref[dir].push(keep)
@@ -86,7 +86,7 @@ func VerifBridge() {
 				ref[dir].msg[a], ref[dir].msg[b] = ref[dir].msg[b], ref[dir].msg[a]
 			}
 		default: // a filter that admits messages whose first byte is below 128
-			br.Filter(dir, func(b []byte) bool { return b[0] < 128 })
+			br.Filter(dir, func(b []byte) bool { return len(b) == 0 || b[0] < 128 })
 			filterOn[dir] = true
 		}
 		vAssume(ref[0].n < verifBrMax-1 && ref[1].n < verifBrMax-1)
